@@ -20,7 +20,7 @@ func TestC04Acks(t *testing.T) {
 		s := downlib.Gen(c.Rng, 380)
 		var out *downlib.Outcome
 		var why string
-		ok, dump := vrun.Watchdog(180*time.Second, func() { out, why = downlib.Run(s) })
+		ok, dump := vrun.Watchdog(60*time.Second, func() { out, why = downlib.Run(s) })
 		if !ok {
 			r := vrun.WatchdogVerdict("ReadDataPoints never returned")
 			r.Desc = s
